@@ -341,7 +341,14 @@ def lock6b(cfg):
                     if reads and not ((reads[0][0], reads[0][1]) < (dealloc[0][0], dealloc[0][1]) if reads[0][0] == dealloc[0][0] else True):
                         problems.append('the leaf size is read after the leaf was handed to QSBR (it may already be freed)')
                 else:
-                    ok_size = args[1].startswith('sizeof(') and 'inode' in args[1]
+                    # sizeof of the node CLASS the deleter is instantiated for (not of a pointer to it)
+                    sz = f.strip_casts(dealloc[0][2]['args'][1])
+                    of = (sz.get('of') or '').strip() if isinstance(sz, dict) and sz.get('k') == 'sizeof' else ''
+                    p0t = (f.params[0].get('t') or '').replace('const ', '').strip() if f.params else ''
+                    pointee = p0t[:-1].strip() if p0t.endswith('*') else ''
+                    ok_size = bool(of) and not of.endswith('*') and 'inode' in of and (not pointee or of.replace('const ', '') == pointee)
+                    if not ok_size and of:
+                        args[1] = 'sizeof(%s) = %s' % (sh(of)[:60], sz.get('v'))
                 if not ok_size:
                     problems.append('the size handed to QSBR is %s' % args[1])
         ok = not problems
